@@ -559,3 +559,359 @@ def oracle_cauchy(ctx, ncases=None):
         distribution=dist,
         failures=failures,
     )
+
+
+# ---------------------------------------------------------------------------
+# C19
+
+
+def _py_item(item):
+    out = []
+    for e in item:
+        if isinstance(e, list) and e and e[0] == "slice":
+            out.append(slice(e[1], e[2], e[3]))
+        else:
+            out.append(e)
+    return tuple(out)
+
+
+def _is_slice(e):
+    return isinstance(e, list) and bool(e) and e[0] == "slice"
+
+
+def _elem(x):
+    from pymablock.series import zero, one
+
+    if x is zero:
+        return "zero"
+    if x is one:
+        return "one"
+    return int(x)
+
+
+def make_series(case, log):
+    from pymablock.series import BlockSeries, zero
+
+    table = {tuple(k): v for k, v in case["table"]}
+
+    def ev(*index):
+        idx = tuple(int(x) for x in index)
+        log.append(idx)
+        v = table.get(idx, "zero")
+        return zero if v == "zero" else v
+
+    return BlockSeries(eval=ev, shape=tuple(case["shape"]), n_infinite=case["ninf"])
+
+
+def dense_reference(case, extent):
+    """dense object array of the element values, computed by a FRESH series with all-integer requests"""
+    from pymablock.series import zero
+
+    s = make_series(case, [])
+    shape = tuple(case["shape"]) + tuple(extent)
+    D = np.empty(shape, dtype=object)
+    for idx in itertools.product(*(range(d) for d in shape)):
+        D[idx] = s[idx]
+    return D, zero
+
+
+def needed_extent(orders):
+    ext = []
+    for o in orders:
+        if _is_slice(o):
+            ext.append(max(o[2], 0))
+        elif isinstance(o, list):
+            ext.append(max(o + [0]) + 1)
+        else:
+            ext.append(o + 1)
+    return ext
+
+
+def gen_getitem_case(rng):
+    shape = rng.choice([(), (1,), (2,), (3,), (2, 2), (2, 3), (3, 3), (3, 1), (2, 3, 2), (2, 2, 2), (3, 2, 2)])
+    ninf = rng.choice([1, 1, 2, 2, 3]) if len(shape) < 3 else rng.choice([1, 1, 2])
+    if rng.random() < 0.08 and shape:
+        ninf = 0
+    N = {0: 0, 1: 3, 2: 2, 3: 1}[ninf]
+    p_zero = rng.choice([0.0, 0.25, 0.5])
+    table, tag = [], 1
+    for idx in itertools.product(*([range(d) for d in shape] + [range(N + 2)] * ninf)):
+        if rng.random() < p_zero:
+            table.append([list(idx), "zero"])
+        else:
+            table.append([list(idx), tag])
+            tag += 1
+
+    def fin_index(d):
+        r = rng.random()
+        if r < 0.4:
+            return rng.randint(-d, d - 1)
+        if r < 0.65:
+            return [rng.randint(-d, d - 1) for _ in range(rng.choice([1, 2, 2, 3]))]
+        return ["slice", rng.choice([None, None, 0, 1, -1, -2]), rng.choice([None, None, 1, 2, d, -1]), rng.choice([None, None, 1, 2])]
+
+    def ord_index():
+        r = rng.random()
+        if r < 0.45:
+            return rng.randint(0, N + 1)
+        if r < 0.65:
+            return [rng.randint(0, N + 1) for _ in range(rng.choice([1, 2, 2, 3]))]
+        return ["slice", rng.choice([None, None, 0, 1, 2]), rng.randint(0, N + 2), rng.choice([None, None, 1, 2])]
+
+    def unify(item):
+        lists = [k for k, e in enumerate(item) if isinstance(e, list) and not _is_slice(e)]
+        if len(lists) > 1:
+            L = rng.choice([1, 2, 3])
+            for k in lists:
+                if k < len(shape):
+                    item[k] = [rng.randint(-shape[k], shape[k] - 1) for _ in range(L if rng.random() < 0.85 else 1)]
+                else:
+                    item[k] = [rng.randint(0, N + 1) for _ in range(L if rng.random() < 0.85 else 1)]
+        return item
+
+    requests = [unify([fin_index(d) for d in shape] + [ord_index() for _ in range(ninf)]) for _ in range(rng.randint(2, 5))]
+    views = []
+    if ninf:
+        for _ in range(rng.randint(0, 2)):
+            views.append(dict(item=unify([fin_index(d) for d in shape]), orders=[[rng.randint(0, N + 1) for _ in range(ninf)] for _ in range(2)]))
+    return dict(kind="numpy", shape=list(shape), ninf=ninf, N=N, table=table, requests=requests, views=views, extra=[rng.randint(0, 2) for _ in range(ninf)])
+
+
+def run_getitem_case(case):
+    from pymablock.series import BlockSeries, zero
+
+    fails = []
+    log = []
+    s = make_series(case, log)
+    nf = len(case["shape"])
+    for item in case["requests"]:
+        ext = [a + b for a, b in zip(needed_extent(item[nf:]), case["extra"])]
+        D, _ = dense_reference(case, ext)
+        pit = _py_item(item)
+        try:
+            want = D[pit]
+        except IndexError:
+            want = "IndexError"
+        try:
+            got = s[pit]
+        except BaseException as e:  # noqa: BLE001
+            got = type(e).__name__
+        if isinstance(want, str) or isinstance(got, str):
+            if want != got:
+                fails.append(dict(what="series[item] and dense[item] disagree on raising", input=case, item=item, expected=str(want)[:200], observed=str(got)[:200]))
+            continue
+        if isinstance(want, np.ndarray):
+            if not isinstance(got, np.ma.MaskedArray):
+                fails.append(dict(what="array expected, got %r" % type(got).__name__, input=case, item=item))
+                continue
+            w_data = [_elem(x) for x in want.reshape(-1)]
+            g_data = [_elem(x) for x in np.ma.getdata(got).reshape(-1)]
+            g_mask = [bool(x) for x in np.ma.getmaskarray(got).reshape(-1)]
+            if tuple(got.shape) != tuple(want.shape) or g_data != w_data or g_mask != [v == "zero" for v in w_data]:
+                fails.append(dict(what="series[item] differs from dense_array[item] (shape / values / mask)", input=case, item=item, expected=[list(want.shape), w_data], observed=[list(got.shape), g_data, g_mask]))
+        else:
+            if isinstance(got, (np.ndarray, BlockSeries)) or _elem(got) != _elem(want):
+                fails.append(dict(what="series[item] differs from dense_array[item] (scalar)", input=case, item=item, expected=_elem(want), observed=str(got)[:100]))
+    # exactly once (no pops, no exceptions in this case)
+    if len(set(log)) != len(log):
+        dup = sorted({i for i in log if log.count(i) > 1})[:3]
+        fails.append(dict(what="an element was evaluated more than once while cached: %s" % dup, input=case))
+    # views
+    for vw in case.get("views", []):
+        item = vw["item"]
+        pit = _py_item(item)
+        try:
+            want_shape = np.empty(tuple(case["shape"]))[pit].shape
+        except IndexError:
+            want_shape = None
+        try:
+            v = s[pit]
+        except IndexError:
+            if want_shape is not None and not all(isinstance(e, int) for e in item):
+                fails.append(dict(what="view creation raised IndexError on a valid finite item", input=case, item=item))
+            continue
+        if want_shape is None:
+            if not all(isinstance(e, int) for e in item):
+                fails.append(dict(what="view created for an out-of-bounds finite item", input=case, item=item))
+                continue
+        elif tuple(v.shape) != tuple(want_shape):
+            fails.append(dict(what="view shape differs from np.empty(shape)[item].shape", input=case, item=item, expected=list(want_shape), observed=list(v.shape)))
+            continue
+        for o in vw["orders"]:
+            D, _ = dense_reference(case, [x + 1 for x in o])
+            try:
+                sub = D[pit + tuple(slice(x, x + 1) for x in o)]
+                sub = sub.reshape(sub.shape[: sub.ndim - len(o)])
+            except IndexError:
+                sub = None
+            for fidx in itertools.product(*(range(d) for d in v.shape)):
+                try:
+                    got = _elem(v[tuple(fidx) + tuple(o)])
+                except BaseException as e:  # noqa: BLE001
+                    got = type(e).__name__
+                want = "IndexError" if sub is None else _elem(sub[fidx])
+                if got != want:
+                    fails.append(dict(what="view element differs from the element of the original", input=case, item=item, index=list(fidx) + list(o), expected=want, observed=got))
+    return fails
+
+
+def run_protocol_case(case):
+    """IndexError classes, recursion, exception clean-up, exactly-once under pop"""
+    from pymablock.series import BlockSeries, zero
+
+    fails = []
+    kind = case["kind"]
+    shape, ninf = tuple(case["shape"]), case["ninf"]
+    if kind == "indexerror":
+        log = []
+        s = make_series(case, log)
+        for item in case["requests"]:
+            try:
+                r = s[_py_item(item)]
+                fails.append(dict(what="no IndexError for a rejected request", input=case, item=item, observed=str(type(r).__name__)))
+            except IndexError:
+                pass
+            except BaseException as e:  # noqa: BLE001
+                fails.append(dict(what="%s instead of IndexError" % type(e).__name__, input=case, item=item, observed=type(e).__name__))
+        if log:
+            fails.append(dict(what="eval was called by a rejected request", input=case, observed=log[:3]))
+    elif kind == "recursion":
+        box = {}
+        idx = tuple(case["index"])
+        other = tuple(case["other"])
+        calls = []
+
+        def ev_a(*index):
+            index = tuple(int(x) for x in index)
+            calls.append(("a", index))
+            if index == idx:
+                return box["b" if case["mutual"] else "a"][idx]
+            return 1
+
+        def ev_b(*index):
+            index = tuple(int(x) for x in index)
+            calls.append(("b", index))
+            return box["a"][index]
+
+        box["a"] = BlockSeries(eval=ev_a, shape=shape, n_infinite=ninf)
+        box["b"] = BlockSeries(eval=ev_b, shape=shape, n_infinite=ninf)
+        ok_before = box["a"][other]
+        try:
+            box["a"][idx]
+            fails.append(dict(what="self-referential element returned a value", input=case))
+        except RuntimeError:
+            pass
+        except BaseException as e:  # noqa: BLE001
+            fails.append(dict(what="%s instead of RuntimeError for a self-referential element" % type(e).__name__, input=case, observed=type(e).__name__))
+        sentinel = object()
+        for name in ("a", "b"):
+            if box[name].pop(idx, sentinel) is not sentinel:
+                fails.append(dict(what="key left in the cache of series %s after the failed evaluation" % name, input=case))
+        n = len(calls)
+        if box["a"][other] != ok_before or len(calls) != n:
+            fails.append(dict(what="an evaluated element was lost or re-evaluated after the failure", input=case))
+    elif kind == "cleanup":
+        exc = {"ValueError": ValueError, "KeyboardInterrupt": KeyboardInterrupt, "RuntimeError": RuntimeError}[case["exc"]]
+        bad = tuple(case["index"])
+        calls = []
+        state = {"fail": True}
+
+        def ev(*index):
+            index = tuple(int(x) for x in index)
+            calls.append(index)
+            if index == bad and state["fail"]:
+                raise exc("injected")
+            return 7 + sum(index)
+
+        s = BlockSeries(eval=ev, shape=shape, n_infinite=ninf)
+        item = _py_item(case["requests"][0])
+        try:
+            s[item]
+            fails.append(dict(what="exception of eval was swallowed", input=case))
+        except BaseException as e:  # noqa: BLE001
+            if type(e).__name__ != case["exc"]:
+                fails.append(dict(what="%s instead of %s" % (type(e).__name__, case["exc"]), input=case, observed=type(e).__name__))
+        sentinel = object()
+        if s.pop(bad, sentinel) is not sentinel:
+            fails.append(dict(what="PENDING/partial key left behind after %s" % case["exc"], input=case))
+        state["fail"] = False
+        before = list(calls)
+        try:
+            r = s[item]
+        except BaseException as e:  # noqa: BLE001
+            fails.append(dict(what="series unusable after a failed evaluation: %s" % type(e).__name__, input=case))
+            return fails
+        again = calls[len(before):]
+        # elements evaluated successfully before the failure must not be evaluated again
+        done_before = [i for i in before if i != bad]
+        if any(i in done_before for i in again):
+            fails.append(dict(what="elements cached before the exception were evaluated again", input=case, observed=again[:4]))
+        D = np.empty(tuple(shape) + tuple(case["extent"]), dtype=object)
+        for i in itertools.product(*(range(d) for d in D.shape)):
+            D[i] = 7 + sum(i)
+        want = D[item]
+        if [int(x) for x in np.asarray(np.ma.getdata(r)).reshape(-1)] != [int(x) for x in np.asarray(want).reshape(-1)]:
+            fails.append(dict(what="wrong values after recovery from an exception", input=case))
+    return fails
+
+
+def gen_protocol_case(rng):
+    shape = rng.choice([(), (2,), (2, 2), (2, 3)])
+    ninf = rng.choice([1, 1, 2])
+    kind = rng.choice(["indexerror", "indexerror", "recursion", "cleanup"])
+    fin = [rng.randrange(d) for d in shape]
+    if kind == "indexerror":
+        bads = [-1, [0, -1], ["slice", None, None, None], ["slice", -1, 2, None], ["slice", 0, -1, None], ["slice", 1, None, 2], [-3, 1]]
+        reqs = []
+        for _ in range(3):
+            orders = [rng.randint(0, 2) for _ in range(ninf)]
+            orders[rng.randrange(ninf)] = rng.choice(bads)
+            reqs.append(fin + orders)
+        reqs.append(fin + [0] * (ninf + 1))
+        if len(shape) + ninf > 1 and not (ninf and len(shape) + ninf - 1 == len(shape)):
+            reqs.append((fin + [0] * ninf)[:-1])
+        table = [[list(i), 5] for i in itertools.product(*([range(d) for d in shape] + [range(3)] * ninf))]
+        return dict(kind=kind, shape=list(shape), ninf=ninf, table=table, requests=reqs)
+    if kind == "recursion":
+        idx = fin + [rng.randint(0, 2) for _ in range(ninf)]
+        other = fin + [3] * ninf
+        return dict(kind=kind, shape=list(shape), ninf=ninf, index=idx, other=other, mutual=rng.random() < 0.5)
+    orders = [["slice", 0, 3, None] if k == 0 else rng.randint(0, 2) for k in range(ninf)]
+    bad = fin + [rng.randint(0, 2)] + [o for o in orders[1:]]
+    extent = [3] + [o + 1 for o in orders[1:]]
+    return dict(kind=kind, shape=list(shape), ninf=ninf, index=bad, requests=[fin + orders], extent=extent, exc=rng.choice(["ValueError", "KeyboardInterrupt", "RuntimeError"]))
+
+
+def run_c19_case(case):
+    return run_getitem_case(case) if case["kind"] == "numpy" else run_protocol_case(case)
+
+
+def oracle_getitem(ctx, ncases=None):
+    n = ncases or ctx.n(120, 2500)
+    rng = ctx.rng
+    failures, samples, dist = [], [], {}
+    nontrivial = set()
+    evaluations = 0
+    for k in range(n):
+        case = gen_getitem_case(rng) if rng.random() < 0.75 else gen_protocol_case(rng)
+        try:
+            f = run_c19_case(case)
+        except Exception as e:  # noqa: BLE001
+            import traceback
+
+            f = [dict(what="oracle could not run the case: %r" % (e,), input=case, detail=traceback.format_exc()[-800:])]
+        failures += f
+        evaluations += len(case.get("requests", [])) + len(case.get("views", [])) + 1
+        dist[case["kind"]] = dist.get(case["kind"], 0) + 1
+        if case["kind"] != "numpy" or any(any(isinstance(e, list) for e in it) for it in case["requests"]):
+            nontrivial.add(core.sha(core.canon(case))[:16])
+        if len(samples) < 3:
+            samples.append(dict(kind=case["kind"], shape=case["shape"], ninf=case["ninf"], requests=case.get("requests", [])[:2]))
+    return dict(
+        evaluations=evaluations,
+        nontrivial=len(nontrivial),
+        rule="distinct cases that are protocol cases (IndexError / recursion / clean-up) or contain a list or slice request",
+        samples=samples,
+        distribution=dist,
+        failures=failures,
+    )
